@@ -322,6 +322,43 @@ theorem precededBy_eq_spec (c : Cfg) (a : Row) (as bs : List Row)
     · exact hb
     · exact Nat.lt_of_lt_of_le hb (rel_of_pairwise_cons hs ha')
 
+theorem mem_takeWhile_imp' {α} {p : α → Bool} : ∀ {l : List α} {x : α}, x ∈ l.takeWhile p → p x = true ∧ x ∈ l := by
+  intro l
+  induction l with
+  | nil => intro x h; simp at h
+  | cons y ys ih =>
+    intro x h
+    rw [takeWhile_cons] at h
+    split at h
+    · rename_i hy
+      rcases mem_cons.mp h with rfl | h
+      · exact ⟨hy, by simp⟩
+      · exact ⟨(ih h).1, mem_cons_of_mem _ (ih h).2⟩
+    · simp at h
+
+/-- the latest earlier partner is a row of the list and is earlier -/
+theorem latestP_some {c : Cfg} {a b : Row} {bs : List Row} (h : latestP c a bs = some b) :
+    b ∈ bs ∧ c.ts b < c.ts a := by
+  have := mem_takeWhile_imp' (mem_of_getLast? h)
+  exact ⟨this.2, by simpa using this.1⟩
+
+/-- in a time-sorted list an earlier row exists iff the latest earlier partner exists -/
+theorem latestP_isSome_of_mem {c : Cfg} {a b : Row} {bs : List Row}
+    (hs : bs.Pairwise (fun x y => c.ts x ≤ c.ts y)) (hb : b ∈ bs) (ht : c.ts b < c.ts a) :
+    ∃ b', latestP c a bs = some b' := by
+  cases bs with
+  | nil => simp at hb
+  | cons b0 rest =>
+    have h0 : c.ts b0 < c.ts a := by
+      rcases mem_cons.mp hb with rfl | hb
+      · exact ht
+      · exact Nat.lt_of_le_of_lt (rel_of_pairwise_cons hs hb) ht
+    unfold latestP
+    rw [takeWhile_cons_of_pos (by simpa using h0)]
+    cases h : (b0 :: takeWhile (fun b => decide (c.ts b < c.ts a)) rest).getLast? with
+    | none => simp at h
+    | some b' => exact ⟨b', rfl⟩
+
 theorem mem_pbLoop (c : Cfg) : ∀ (fuel : Nat) (as bs : List Row) (p : Pair), p ∈ pbLoop c fuel as bs →
     p.2 ∈ as ∧ p.1 ∈ bs ∧ c.ts p.1 < c.ts p.2 ∧ c.pairOk p.2 p.1 = true := by
   intro fuel
